@@ -396,3 +396,41 @@ def call_node_contract(prop, sfx, replay_code):
         c.assume_note("macro_args is summarised by a BoundArgs value of one bound parameter, one unbound parameter, one surplus positional and one surplus keyword argument (its own contract: C27 macro_args[...]); context.copy is summarised (C15/C06 copy contracts)")
         c.replay("code", code=replay_code())
     return cn
+
+
+# ---- exceptions.lookup_warning is total on the Liquid error classes: the callee contract that
+# ---- Environment.error / RenderContext.error rely on in WARN mode (C03: a warning instead of an
+# ---- error; C02: nothing but a Liquid error escapes in any tolerance mode)
+
+REPLAY_WARN = r'''
+def run(m):
+    import warnings, inspect
+    import liquid.exceptions as ex
+    from liquid import Environment, Mode
+    bad = []
+    for name, cls in inspect.getmembers(ex, inspect.isclass):
+        if issubclass(cls, ex.LiquidError) and not issubclass(cls, getattr(ex, "LiquidInterrupt", ())):
+            with warnings.catch_warnings(record=True) as w:
+                warnings.simplefilter("always")
+                try:
+                    Environment(tolerance=Mode.WARN).error(cls("x", token=None))
+                    if len(w) != 1:
+                        bad.append((name, f"{len(w)} warnings"))
+                except BaseException as e:
+                    bad.append((name, type(e).__name__))
+    return {"violated": bool(bad), "observed": bad[:4], "witness": "warn-mode-error-class"}
+'''
+
+
+def lookup_warning_contracts(prop, error_classes):
+    from pyvc.contract import contract
+
+    for cls in error_classes:
+        def _mk_lw(cls):
+            @contract("liquid.exceptions:lookup_warning", prop=prop, name=f"lookup_warning[{cls}]")
+            def lw(c):
+                c.call(VExcClass(cls))
+                c.raises()
+                c.ensures("a-warning-class-for-every-liquid-error-class", lambda r: z3.BoolVal(not isinstance(r.value, VNone)))
+                c.replay("code", code=REPLAY_WARN)
+        _mk_lw(cls)
